@@ -957,24 +957,45 @@ impl<'a> Sc<'a> {
     /// terminal state (`End::Complete`), a deadlock (`End::Deadlock`) or
     /// anywhere (`End::Any`, for iterations cut short by a panic)?
     pub fn accepts(&self, log: &[(u8, u8)], results: &Outcome, end: End) -> bool {
-        let mut seen: HashSet<St> = HashSet::new();
-        let mut stack = vec![self.init()];
+        self.replay(log, results, end, false) != Replay::Rejected
+    }
+
+    fn is_atomic_read(op: &Op) -> bool {
+        matches!(op, Op::Load { .. } | Op::Swap { .. } | Op::FetchAdd { .. } | Op::Cas { .. })
+    }
+
+    /// Replays `log` on the reference machines. With `free_atomics` the values returned by
+    /// atomic operations are taken from `results` instead of being computed (loom's atomics are
+    /// weaker than the sequentially consistent ones of this reference). On acceptance returns the
+    /// minimal number of preemptions over all accepting runs: a preemption is a switch from the
+    /// thread of one log entry to a different thread of the next entry while the first thread's
+    /// next operation could have completed in that state and its last operation was not a yield.
+    pub fn replay(&self, log: &[(u8, u8)], results: &Outcome, end: End, free_atomics: bool) -> Replay {
+        let mut best: Option<u32> = None;
+        let mut seen: HashSet<(St, u32)> = HashSet::new();
+        let mut stack = vec![(self.init(), 0u32)];
         let mut steps: Vec<Step> = vec![];
+        let mut probe: Vec<Step> = vec![];
         let mut races = (false, false);
-        while let Some(st) = stack.pop() {
-            if seen.contains(&st) {
+        while let Some((st, cnt)) = stack.pop() {
+            if seen.contains(&(st.clone(), cnt)) {
                 continue;
             }
             if seen.len() >= self.opts.max_states {
-                return true; // inconclusive: never turn a budget into a failure
+                return Replay::Inconclusive; // never turn a budget into a failure
+            }
+            if let Some(b) = best {
+                if cnt >= b {
+                    continue;
+                }
             }
             let pos = st.logpos as usize;
             if pos == log.len() {
                 // all visible steps consumed: check the end condition (allow hidden steps first)
                 let live = (0..self.n).filter(|&t| st.started[t] && !st.exited[t]).count();
-                match end {
-                    End::Any => return true,
-                    End::Complete if live == 0 => return true,
+                let ok = match end {
+                    End::Any => true,
+                    End::Complete => live == 0,
                     End::Deadlock => {
                         let mut any = false;
                         for t in 0..self.n {
@@ -985,11 +1006,15 @@ impl<'a> Sc<'a> {
                             }
                         }
                         steps.clear();
-                        if !any && live > 0 {
-                            return true;
-                        }
+                        !any && live > 0
                     }
-                    _ => {}
+                };
+                if ok {
+                    best = Some(best.map(|b| b.min(cnt)).unwrap_or(cnt));
+                    if cnt == 0 {
+                        return Replay::Accepted(0);
+                    }
+                    continue;
                 }
             }
             for t in 0..self.n {
@@ -997,25 +1022,60 @@ impl<'a> Sc<'a> {
                 self.steps(&st, t, &mut steps, &mut races);
                 for s in steps.drain(..) {
                     match s {
-                        Step::Hidden(s) => stack.push(s),
+                        Step::Hidden(s) => stack.push((s, cnt)),
                         Step::Done(mut s) => {
                             if pos < log.len() && log[pos] == (t as u8, st.pc[t]) {
+                                let rec = &results[t];
+                                if free_atomics && Self::is_atomic_read(&self.prog.threads[t][st.pc[t] as usize]) {
+                                    let k = s.res[t].len();
+                                    if k >= 1 && k <= rec.len() {
+                                        s.res[t][k - 1] = rec[k - 1];
+                                    }
+                                }
                                 // results so far must agree with the recorded ones
                                 let rt = &s.res[t];
-                                let rec = &results[t];
                                 if rt.len() <= rec.len() && rt[..] == rec[..rt.len()] {
+                                    let mut c = cnt;
+                                    if pos > 0 {
+                                        let p = log[pos - 1].0 as usize;
+                                        if p != t && !st.exited[p] {
+                                            let ppc = st.pc[p] as usize;
+                                            let pops = &self.prog.threads[p];
+                                            let yielded = ppc >= 1 && matches!(pops[ppc - 1], Op::Yield);
+                                            // a switch inside `yield_now` is voluntary
+                                            let yielding = ppc < pops.len() && matches!(pops[ppc], Op::Yield);
+                                            if ppc < pops.len() && !yielded && !yielding {
+                                                probe.clear();
+                                                self.steps(&st, p, &mut probe, &mut races);
+                                                if probe.iter().any(|x| matches!(x, Step::Done(_))) {
+                                                    c += 1;
+                                                }
+                                                probe.clear();
+                                            }
+                                        }
+                                    }
                                     s.logpos += 1;
-                                    stack.push(s);
+                                    stack.push((s, c));
                                 }
                             }
                         }
                     }
                 }
             }
-            seen.insert(st);
+            seen.insert((st, cnt));
         }
-        false
+        match best {
+            Some(b) => Replay::Accepted(b),
+            None => Replay::Rejected,
+        }
     }
+}
+
+#[derive(Clone, Copy, Debug, PartialEq, Eq)]
+pub enum Replay {
+    Accepted(u32),
+    Rejected,
+    Inconclusive,
 }
 
 #[derive(Clone, Copy, Debug, PartialEq, Eq)]
